@@ -333,6 +333,8 @@ impl Runtime {
             Err(error) => {
                 if let State::InputRunning = self.state {
                     loop {
+                        #[cfg(feature = "verif")]
+                        crate::verif::tick(crate::verif::SITE_EXEC_INPUT_UNWIND);
                         match self.stack.pop() {
                             Err(_) => break,
                             Ok(Val::Return(addr)) => {
@@ -387,6 +389,8 @@ impl Runtime {
                     }
                 }
             }
+            #[cfg(feature = "verif")]
+            crate::verif::tick(crate::verif::SITE_EXEC);
             let op = match self.program.get(self.pc) {
                 Some(v) => v,
                 None => return Err(error!(InternalError; "INVALID PC ADDRESS")),
@@ -763,6 +767,8 @@ impl Runtime {
 
     fn r#next(&mut self, next_name: Rc<str>) -> Result<()> {
         loop {
+            #[cfg(feature = "verif")]
+            crate::verif::tick(crate::verif::SITE_EXEC_NEXT);
             let next = match self.stack.pop() {
                 Ok(Val::Next(addr)) => addr,
                 Ok(_) | Err(_) => return Err(error!(NextWithoutFor)),
@@ -856,6 +862,8 @@ impl Runtime {
         let mut ret_val: Option<Val> = None;
         let mut first = true;
         loop {
+            #[cfg(feature = "verif")]
+            crate::verif::tick(crate::verif::SITE_EXEC_RETURN);
             match self.stack.pop() {
                 Ok(Val::Return(addr)) => {
                     if let Some(val) = ret_val {
